@@ -156,7 +156,9 @@ def validate_e5_ops(n_per_op: int = 200, seed: int = 0) -> tuple[int, list]:
                 vals = [v % H for v in vals]       # E5 holds nat values as non-negative Python ints
             sv = [E.s64(v) if t == "int" else v for v in vals]
             try:
+                e5.reset_acc()
                 got = fn(*sv)
+                e5.check_acc()       # (the overflow decision is deferred to the end of a run)
             except (e5.Overflow, e5.KnownRegion, e5.Panic, ZeroDivisionError, OverflowError):
                 continue
             try:
